@@ -28,10 +28,13 @@ STAGES = ["none", "bad_owner_signature", "expired", "missing_link", "unauthorise
           "threshold_unmet_copy_filed_for_second",
           # the failing step rule is a MATCH whose two sides were recorded with different hash algorithms (nothing in common to
           # compare) or, for one of them, with no digest at all: unequal descriptions, the artifact stays for the DISALLOW
-          "failing_step_rule_match_other_algorithm", "failing_step_rule_match_without_digest"]
+          "failing_step_rule_match_other_algorithm", "failing_step_rule_match_without_digest",
+          # the failing step rule is a REQUIRE that is reached when nothing is left to consume: an earlier rule took every
+          # artifact / the link recorded no products at all
+          "failing_step_rule_require_after_all_consumed", "failing_step_rule_require_nothing_recorded"]
 OUTCOMES = ["exit0", "exit1", "exit2", "exit127", "exit255", "killed", "not_found", "creates", "modifies", "deletes"]
 RULESETS = ["none", "satisfied", "violated_materials", "violated_products", "products_only_create_preexisting",
-            "violated_products_named_like_a_step"]
+            "violated_products_named_like_a_step", "violated_require_after_all_consumed"]
 FUNC = ["ed4", "ed5", "ed6", "edp2"]
 
 
@@ -49,6 +52,8 @@ def rules_of(rs):
         return [["REQUIRE", "pre.txt"], ["ALLOW", "*"]], [["REQUIRE", "sentinel.txt"], ["ALLOW", "*"], ["DISALLOW", "*"]]
     if rs == "violated_materials":
         return [["DISALLOW", "pre.txt"], ["ALLOW", "*"]], [["ALLOW", "*"]]
+    if rs == "violated_require_after_all_consumed":
+        return [["ALLOW", "*"], ["REQUIRE", "absent.txt"]], [["ALLOW", "*"]]
     if rs == "products_only_create_preexisting":
         # no material rules at all; pre.txt exists before the command runs, so it is not *created* by the inspection:
         # CREATE does not consume it and the DISALLOW after it applies - unless the command deletes the file
@@ -81,6 +86,10 @@ def build_cell(W, rng, stage, outcome, rs, ninsp, level, keyset=FUNC, random_ext
         build_rules_p = [["MATCH", "nothing", "WITH", "PRODUCTS", "FROM", "insp0"], ["DISALLOW", "*"]]
     elif stage == "failing_step_rule_match_from_undefined":
         build_rules_p = [["MATCH", "*", "WITH", "MATERIALS", "FROM", "no-such-item"], ["REQUIRE", "never-there"]]
+    elif stage == "failing_step_rule_require_after_all_consumed":
+        build_rules_p = [["ALLOW", "*"], ["REQUIRE", "never-there"]]
+    elif stage == "failing_step_rule_require_nothing_recorded":
+        build_rules_p = [["REQUIRE", "never-there"], ["ALLOW", "*"]]
     steps = [scen.mk_step("build", thr, [W.kid(ka), W.kid(kb)], [], [["ALLOW", "*"]], build_rules_p),
              scen.mk_step("package", 1, [W.kid(kc)], [], [["MATCH", "*", "WITH", "PRODUCTS", "FROM", "build"], ["ALLOW", "*"]], [["ALLOW", "*"]])]
     if stage in ("failing_step_rule_match_other_algorithm", "failing_step_rule_match_without_digest"):
@@ -102,6 +111,8 @@ def build_cell(W, rng, stage, outcome, rs, ninsp, level, keyset=FUNC, random_ext
     # links of the inspected layout
     l_build = pipeline.leaf_link("build", 0)
     l_pkg = pipeline.leaf_link("package", 1)
+    if stage == "failing_step_rule_require_nothing_recorded":
+        l_build["products"] = {}
     if stage == "failing_step_rule_match_other_algorithm":
         l_pkg["materials"] = {p: {"sha512": "5a" * 64} for p in l_pkg["materials"]}
     elif stage == "failing_step_rule_match_without_digest":
